@@ -29,6 +29,8 @@ from vpbt.oracles.bitmodel import (ModelEOF, ReadModel, WriteModel, bits_to_int,
 ID = "C20"
 LEVEL = "exploration"
 RULE = (
+    "long: files of 64 KiB - 256 KiB of drawn bytes read to the end by both readers (drawn widths near every 64 KiB boundary, "
+    "read_bytes strides elsewhere) and after seeks to drawn positions, values and tell() against the bytes themselves. "
     "rewind: exhaustive -- every prefix of 1-7 bits, seek back to every bit of that unfinished byte, every overwrite that stays in "
     "the byte: the file must hold zeros + the new bits (documented: seeking to a byte clears the bits already set in it). "
     "machine: a Hypothesis RuleBasedStateMachine (and, for volume, the same operation grammar driven by "
@@ -1226,7 +1228,7 @@ def shards(tier):
     out = [("exh", k, 32) for k in range(32)]
     out += [("machine", k, 16) for k in range(16)]
     out += [("len", k, 4) for k in range(4)]
-    out += [("rewind", 0, 1)]
+    out += [("rewind", 0, 1), ("long", 0, 1)]
     return out
 
 
@@ -1292,8 +1294,87 @@ def run_rewind(ctx):
                                      labels=("part:rewind_in_byte",))
 
 
+def long_one(n, seed, col):
+    """A file of n drawn bytes (longer than any buffer a reader might keep) read to its end by both readers with drawn
+    widths, plus seeks to drawn positions followed by a read; every value and tell() against the bytes themselves."""
+    import random
+    from io import BytesIO
+
+    from vc2_conformance.bitstream.io import BitstreamReader
+    from vc2_conformance.decoder import io as D
+    from vc2_conformance.pseudocode.state import State
+
+    rnd = random.Random(seed)
+    data = rnd.randbytes(n)
+    total = 8 * n
+    big = int.from_bytes(data, "big")
+    data_rec = {"kind": "long", "n": n, "seed": seed}
+
+    def bits(pos, w):
+        return (big >> (total - pos - w)) & ((1 << w) - 1)
+
+    r = BitstreamReader(BytesIO(data))
+    state = State()
+    D.init_io(state, BytesIO(data))
+    pos = 0
+    while pos < total:
+        near = min(abs(pos - 8 * b) for b in range(65536, n + 65536, 65536)) if n >= 65536 else total
+        if near > 8 * 600 and pos % 8 == 0 and total - pos > 8 * 600:
+            k = rnd.randint(64, 512)  # stride quickly through the parts far from any 64 KiB boundary
+            got = r.read_bytes(k)
+            want = data[pos // 8:pos // 8 + k]
+            for _ in range(k):
+                D.read_uint_lit(state, 1)
+            if got != want:
+                col.fail("long-file-read_bytes", data_rec, "read_bytes(%d) at byte %d of a %d byte file returned other bytes" % (k, pos // 8, n))
+                return
+            pos += 8 * k
+        else:
+            w = min(rnd.choice([1, 3, 7, 8, 13, 32, 64]), total - pos)
+            got = r.read_nbits(w)
+            got2 = D.read_nbits(state, w)
+            want = bits(pos, w)
+            if got != want or got2 != want:
+                col.fail("long-file-read_nbits", data_rec, "read_nbits(%d) at bit %d of a %d byte file: BitstreamReader %r, decoder %r, file %r"
+                         % (w, pos, n, got, got2, want))
+                return
+            pos += w
+        if r.tell() != (pos // 8, 7 - pos % 8) or D.tell(state) != (pos // 8, 7 - pos % 8):
+            col.fail("long-file-tell", data_rec, "after %d bits of a %d byte file: tell() BitstreamReader %r, decoder %r" % (pos, n, r.tell(), D.tell(state)))
+            return
+    for _ in range(40):
+        p = rnd.randrange(0, total - 64)
+        if rnd.random() < 0.5 and n > 65536:
+            p = 8 * 65536 * rnd.randint(1, n // 65536) - rnd.randint(0, 40)
+            p = max(0, min(p, total - 64))
+        r.seek(p // 8, 7 - p % 8)
+        w = rnd.choice([1, 8, 24, 64])
+        got = r.read_nbits(w)
+        if got != bits(p, w):
+            col.fail("long-file-seek-read", data_rec, "seek to bit %d of a %d byte file then read_nbits(%d): %r, file %r" % (p, n, w, got, bits(p, w)))
+            return
+
+
+def run_long(ctx):
+    import random
+
+    rnd = random.Random(ctx.seed)
+    sizes = [65535, 65536, 65537, 70000, 131072 + 3] + ([200000, 262144 + 1, 70001] if ctx.thorough else [])
+    for n in sizes:
+        for rep in range(ctx.pick(1, 4)):
+            seed = rnd.getrandbits(32)
+            try:
+                long_one(n, seed, ctx.col)
+            except Exception as e:  # e.g. EOFError before the end of the file
+                ctx.col.fail(ctx.col.crash_bucket(e, "long-file"), {"kind": "long", "n": n, "seed": seed},
+                             "reading a %d byte file raised %s: %s" % (n, type(e).__name__, str(e)[:200]))
+            ctx.col.case(key=("long", n, seed), nontrivial=True, labels=("part:long_file",))
+
+
 def run_shard(spec, ctx):
     kind, k, n = spec
+    if kind == "long":
+        return run_long(ctx)
     if kind == "rewind":
         return run_rewind(ctx)
     if kind == "exh":
@@ -1319,6 +1400,8 @@ def replay(data, col):
         exh_one(_mods(), bytes.fromhex(data["file"]), int(data["pre"]), int(data["blen"]), int(data["prog"]), col)
     elif kind == "len":
         check_len(int(data["v"]), col, None)
+    elif kind == "long":
+        long_one(data["n"], data["seed"], col)
     elif kind == "rewind":
         rewind_one(data["first"], data["a"], data["k"], data["n"], data["v"], data["lead"], col)
     else:
